@@ -21,6 +21,7 @@ func init() {
 	} else {
 		assumptions = append(assumptions, "private fields rand/level of the inner skip list not found: tower heights NOT forced, towers and backing memory not validated")
 	}
+	assumptions = append(assumptions, "one RoaringBitmap is used by one goroutine at a time (the type is not safe for concurrent use); distinct RoaringBitmaps are independent: used alternately on one goroutine (`obj k`) and, in the Extra parallel-confined, one per goroutine in parallel without ever being shared — concurrent use of ONE bitmap is outside the property")
 	if hooks {
 		assumptions = append(assumptions, "the representation (len, containers.len, per bucket: container kind, len(values) / cached length, popcount, len(set), content hash) is read from the real RoaringBitmap by reflection after mutations (`rep`) and compared with the model state and with the reference set + representation history")
 	} else {
@@ -29,7 +30,7 @@ func init() {
 	core.Register(&core.Prop{
 		ID:       "C03",
 		Title:    "RoaringBitmap behaves as a set of uint32 with complete ascending enumeration",
-		Quick:    700,
+		Quick:    600,
 		Thorough: 4500,
 		Gen:      gen,
 		Corpus:   corpus,
@@ -44,9 +45,10 @@ func init() {
 			}
 			return false
 		},
-		Rule:        "op sequences (add/rm/has/len/fill/drain/range/all/iter/iterk/rep) on a zero-value RoaringBitmap over 1–8 high-16-bit buckets; light cases: small fills/drains, bucket removal at the lowest/middle/highest key, boundary values; heavy cases: scripted events (bucket taken to exactly 4095/4096, duplicate there, conversion by one new value below/above/in the middle or inside a bulk fill, dense bucket drained to 1, to 0, re-created, second conversion, absent removals, bulk traffic on dense buckets), each followed by the representation dump and enumerations (k at bucket boundaries, 1, Len, Len+1); wave-3 streams: large (buckets crossing 4096 repeatedly; a bucket with 60000–65536 members; 300–1200 buckets emptied in descending/random/ascending key order; dense buckets with long empty word runs and isolated members, All/Range/Iter each), history (5–20 fill–drain cycles on one bucket, the same add/rm repeated, an iterator created and dropped at every stage), magnitude (k·65536−1, k·65536, k·65536+1 for k ∈ {1,2,255,256,257,32767,32768,65535,random} in sparse and dense buckets); wave-4 stream handles: Seq values from All() held in 4 slots (obtained while empty, before a conversion, before a bucket vanishes / is re-created) and ranged later, twice, nested, by two Pull cursors; 2–4 RoaringBitmapIter values alive and advanced alternately in the same sparse / dense / different buckets, across bucket boundaries; nested Iter (itpairs); wave 5: in ≈ 30 % of the multi-bucket / handles / magnitude cases and 60 % of the many-buckets cases the tower heights of the skip list inside the RoaringBitmap are forced (header `heights=<kind>:<seed>`, kinds tall 8–32 / flat / alternating 1–32; one word per new bucket from an LCG) and at every rep its towers are validated in place (level 1..32, top level non-empty, chains strictly ascending and non-increasing in length, level 0 = all buckets, node height = levels linked); at every conversion and rep the word slice of a bitmap container has len 1024, cap ≥ 1024, shares no memory with the array container it came from and all buckets' backing arrays are pairwise disjoint; non-trivial = one of these streams or the sequence enumerates ≥ 2 buckets or a bucket taken across the 4096 threshold; distinct by hash of the op list",
+		Rule:        "op sequences (add/rm/has/len/fill/drain/range/all/iter/iterk/rep) on a zero-value RoaringBitmap over 1–8 high-16-bit buckets; light cases: small fills/drains, bucket removal at the lowest/middle/highest key, boundary values; heavy cases: scripted events (bucket taken to exactly 4095/4096, duplicate there, conversion by one new value below/above/in the middle or inside a bulk fill, dense bucket drained to 1, to 0, re-created, second conversion, absent removals, bulk traffic on dense buckets), each followed by the representation dump and enumerations (k at bucket boundaries, 1, Len, Len+1); wave-3 streams: large (buckets crossing 4096 repeatedly; a bucket with 60000–65536 members; 300–1200 buckets emptied in descending/random/ascending key order; dense buckets with long empty word runs and isolated members, All/Range/Iter each), history (5–20 fill–drain cycles on one bucket, the same add/rm repeated, an iterator created and dropped at every stage), magnitude (k·65536−1, k·65536, k·65536+1 for k ∈ {1,2,255,256,257,32767,32768,65535,random} in sparse and dense buckets); wave-4 stream handles: Seq values from All() held in 4 slots (obtained while empty, before a conversion, before a bucket vanishes / is re-created) and ranged later, twice, nested, by two Pull cursors; 2–4 RoaringBitmapIter values alive and advanced alternately in the same sparse / dense / different buckets, across bucket boundaries; nested Iter (itpairs); wave 5: in ≈ 30 % of the multi-bucket / handles / magnitude cases and 60 % of the many-buckets cases the tower heights of the skip list inside the RoaringBitmap are forced (header `heights=<kind>:<seed>`, kinds tall 8–32 / flat / alternating 1–32; one word per new bucket from an LCG) and at every rep its towers are validated in place (level 1..32, top level non-empty, chains strictly ascending and non-increasing in length, level 0 = all buckets, node height = levels linked); at every conversion and rep the word slice of a bitmap container has len 1024, cap ≥ 1024, shares no memory with the array container it came from and all buckets' backing arrays are pairwise disjoint; wave 6: stream multi (op `obj k`: 4 independent bitmaps per case, 2–4 used alternately with the same bucket keys and value runs, conversions across 4096 alternating between objects, handles of one object used after another was mutated, one object emptied while the others keep their content; each object judged against its own reference), raw random-source words (0, 1, 2^31±1, 2^32−1, 2^32, 2^32+1, 2^63, 2^64−1, low-32-bits-1 words) fed to the inner skip list on bucket creation (header heights=raw:<seed>, and ≈ 10 % of the draws of every forced kind), Extra parallel-confined (one bitmap per goroutine, never shared, conversions overlapping in time, judged afterwards); non-trivial = one of these streams or the sequence enumerates ≥ 2 buckets or a bucket taken across the 4096 threshold; distinct by hash of the op list",
 		Classify:    classify,
 		Facts:       facts,
+		Extras:      []core.Extra{{Name: "parallel-confined", Run: extraParallel}},
 		Parallel:    true,
 		Assumptions: assumptions,
 		TrustedBase: []string{
@@ -77,6 +79,11 @@ func corpus() []core.Case {
 		// wave 5: forced tall towers in the inner skip list, buckets removed from the highest key down and from the middle
 		{Lines: []string{"@ C03 rb heights=tall:7", "add 196611", "add 589833", "add 65537", "add 458759", "add 327685", "add 720907", "add 131074", "add 524296", "add 262148", "add 655370", "add 393222", "add 786444", "add 2621480", "add 1966110", "add 1310740", "add 3276850", "add 2949165", "add 2293795", "add 1638425", "add 983055", "add 3932220", "add 4587590", "add 4259905", "add 3604535", "rep", "rm 4587590", "rm 4259905", "rm 3932220", "rm 3604535", "rm 3276850", "rm 2949165", "rm 2621480", "rm 2293795", "rep", "iter", "rm 65537", "rm 786444", "rm 327685", "rm 1966110", "rm 131074", "rm 1310740", "rm 589833", "rep", "range 0", "add 131074", "add 4587590", "rep", "all 0"}, Tag: "corpus-multi-heights"},
 		{Lines: []string{"@ C03 rb heights=alt:3", "add 65536", "add 131072", "add 196608", "add 262144", "add 327680", "rep", "rm 196608", "rep", "rm 327680", "rm 65536", "rep", "iter", "fill 2 0 4096 1", "add 139264", "rep", "all 0"}, Tag: "corpus-dense-multi-heights"},
+		// wave 6: raw random-source words on bucket creation (the first draw of heights=raw:1 is the word 1, i.e. k = 1)
+		{Lines: []string{"@ C03 rb heights=raw:1", "add 5", "add 65541", "has 65541", "len", "rep", "add 131077", "add 196613", "add 262149", "rep", "iter", "rm 65541", "add 65541", "has 65541", "rep", "range 0"}, Tag: "corpus-multi-heights"},
+		{Lines: []string{"@ C03 rb heights=raw:7", "add 1", "add 65537", "add 131073", "add 196609", "add 262145", "add 327681", "add 393217", "add 458753", "add 524289", "rep", "all 0", "len"}, Tag: "corpus-multi-heights"},
+		// wave 6: two objects converted alternately, the others untouched
+		{Lines: []string{"@ C03 rb", "obj 1", "fill 3 100 4096 1", "obj 2", "fill 3 100 4096 1", "obj 1", "add 196608", "rep", "obj 2", "add 196609", "rep", "obj 1", "all 0", "has 196609", "obj 2", "range 0", "iter", "has 196608", "obj 0", "len", "rep", "iter", "obj 3", "has 5", "obj 1", "len"}, Tag: "corpus-multi-dense"},
 	}
 	if !hooks {
 		for i := range cs {
